@@ -135,7 +135,30 @@ impl<'a> Builder<'a> {
                             }
                         }
                     }
-                    match self.rng.below(4) {
+                    let pick = if xv.is_inline_table() || xv.is_array() { self.rng.below(6) } else { self.rng.below(4) };
+                    match pick {
+                        4 | 5 => {
+                            // through the TableLike view, handing over an item that is not a value yet:
+                            // a table / array of tables has to arrive as an inline table / array
+                            let item = match xv {
+                                Value::InlineTable(inner) => Item::Table(inner.into_table()),
+                                Value::Array(a) if !a.is_empty() && a.iter().all(|e| e.is_inline_table()) => {
+                                    let mut aot = ArrayOfTables::new();
+                                    for e in a.iter() {
+                                        aot.push(e.as_inline_table().unwrap().clone().into_table());
+                                    }
+                                    Item::ArrayOfTables(aot)
+                                }
+                                other => Item::Value(other),
+                            };
+                            self.route(match &item {
+                                Item::Table(_) => "dyn TableLike::insert(Item::Table) on an inline table",
+                                Item::ArrayOfTables(_) => "dyn TableLike::insert(Item::ArrayOfTables) on an inline table",
+                                _ => "dyn TableLike::insert(Item::Value) on an inline table",
+                            });
+                            let tl: &mut dyn toml_edit::TableLike = &mut it;
+                            tl.insert(k.as_str(), item);
+                        }
                         0 => {
                             self.route("InlineTable::get_or_insert");
                             it.get_or_insert(k.as_str(), xv);
